@@ -18,7 +18,7 @@ package jt808
 
 // Content of the unescaped payload, written over the escaped text d (interior positions 1..len-2):
 // ec(d,k) counts the 0x7d bytes in [1,k); the token starting at k lands at output index k-1-ec(d,k).
-//@ spec ec(d []byte, k int) int = ite(k <= 1, 0, ec(d, k-1) + ite(d[k-1] == 0x7d, 1, 0))
+//@ spec ec(d []byte, k int) int reads d[0:k] = ite(k <= 1, 0, ec(d, k-1) + ite(d[k-1] == 0x7d, 1, 0))
 //@ spec esec(d []byte, k int) bool = k >= 2 && d[k-1] == 0x7d
 //@ spec etok(d []byte, k int) byte = ite(d[k] == 0x7d && k <= len(d)-3, ite(d[k+1] == 1, byte(0x7d), byte(0x7e)), d[k])
 
@@ -58,7 +58,7 @@ package jt808
 // input byte k lands at output index 1+k+sc(d,k).
 // ---------------------------------------------------------------------------------------------
 //@ spec special(b byte) bool = b == 0x7d || b == 0x7e
-//@ spec sc(d []byte, k int) int = ite(k <= 0, 0, sc(d, k-1) + ite(special(d[k-1]), 1, 0))
+//@ spec sc(d []byte, k int) int reads d[0:k] = ite(k <= 0, 0, sc(d, k-1) + ite(special(d[k-1]), 1, 0))
 //@ spec scode(b byte) byte = ite(b == 0x7d, byte(1), byte(2))
 //@ lemma scBound(d []byte, k int): k >= 0 ==> 0 <= sc(d, k) && sc(d, k) <= k by induction k from 0 trigger sc(d, k)
 
@@ -68,6 +68,7 @@ package jt808
 //@   use scBound(data)
 //@   ensures fresh: fresh(result)
 //@   ensures C01.len: len(result) == 2 + len(data) + old(sc(data, len(data)))
+//@   ensures C01.minlen: len(result) >= 2 + len(data)
 //@   ensures C01.delims: result[0] == 0x7e && result[len(result)-1] == 0x7e
 //@   ensures C01.nodelim: forall(j, 1, len(result)-1, result[j] != 0x7e)
 //@   ensures C01.plain: forall(k, 0, len(data), !special(old(data[k])) ==> result[1+k+old(sc(data,k))] == old(data[k]))
@@ -165,6 +166,14 @@ package jt808
 //@   ensures C01.fresh: fresh(result)
 //@   ensures C01.delims: len(result) >= 2 && result[0] == 0x7e && result[len(result)-1] == 0x7e
 //@   ensures C01.nodelim: forall(j, 1, len(result)-1, result[j] != 0x7e)
+//@   precall append#2 f1: framed()
+//@   precall append#3 f2: framed()
+//@   precall append#4 f3: framed()
+//@   precall CreateVerifyCode f4: framed()
+//@   precall escape f5: framed()
+//@   precall append#2 s1in: sameBytes(body, old(body)) && sameBytes(h.bcdTerminalPhoneNo, old(h.bcdTerminalPhoneNo)) && ptr(h.bcdTerminalPhoneNo) == old(ptr(h.bcdTerminalPhoneNo)) && len(h.bcdTerminalPhoneNo) == old(len(h.bcdTerminalPhoneNo))
+//@   precall append#3 s2in: sameBytes(body, old(body))
+//@   precall append#4 s3in: sameBytes(body, old(body))
 //@   precall append#2 s1: fresh(arg0) && len(arg0) == 4 + old(v19(h)) && hdr4(arg0, old(encid(h)), old(encattr(h, len(body))), old(v19(h)))
 //@   precall append#3 s2: fresh(arg0) && len(arg0) == 4 + old(v19(h)) + old(len(h.bcdTerminalPhoneNo)) && hdr4(arg0, old(encid(h)), old(encattr(h, len(body))), old(v19(h)))
 //@   precall append#3 s2phone: sameBytes(arg0[4 + old(v19(h)) : 4 + old(v19(h)) + old(len(h.bcdTerminalPhoneNo))], old(h.bcdTerminalPhoneNo))
